@@ -719,3 +719,47 @@ do_conect = FunctionContract(
     canary=[("start = 6", "start = 7"), ("width = 5", "width = 4"), ("atom = int(line[num:num + width])", "atom = int(line[num:num + width - 1])")],
 )
 CONTRACTS.append(do_conect)
+
+
+# ------------------------------------------------------------------ write_pdb_string: the CONECT records of one atom, composed
+# One vocabulary for the two regions of the loop body (which atoms are listed; how they are chunked into records), so that they can
+# stand as block contracts in the contract of the whole loop body.
+def setup_conect_atom(cx):
+    args = setup_conect(cx)
+    args2 = setup_partners(cx)
+    serial = cx.eng.ufs['serial']
+    mol_idx, node_idx = args2['mol_idx'], args2['node_idx']
+    cx.spec_env['center'] = SV(TInt, serial(mol_idx.e, node_idx.e))          # nodeidx2atomid[(mol_idx, node_idx)]
+    args.update(args2)                                                        # one nodeidx2atomid (by serial), one mol_idx / node_idx
+    return args
+
+
+def _t0(x):
+    return x.replace('T0', 'old(todo)')
+
+
+conect_chunks.setup = conect_partners.setup = setup_conect_atom
+conect_chunks.ensures = [_t0(e) for e in conect_chunks.ensures]
+for _ls in conect_chunks.loops.values():
+    _ls.inv = [_t0(e) for e in _ls.inv]
+conect_partners.locals = dict(conect_partners.locals, todo=TSeq(TInt))
+conect_chunks.locals = dict(conect_chunks.locals, todo=TSeq(TInt))
+B_PARTNERS, B_CHUNKS = BlockSpec.of(conect_partners), BlockSpec.of(conect_chunks)
+conect_atom = FunctionContract(
+    FP, 'write_pdb_string', 'C16', short='write_pdb_string[CONECT records of one atom, whole]', setup=setup_conect_atom,
+    region=dict(within=["if conect:", "for mol_idx, molecule in enumerate(system.molecules):", "for node_idx in molecule:"], start="todo = sorted("),
+    filters={"n_idx > node_idx": 'up'}, blocks=[B_PARTNERS, B_CHUNKS],
+    ensures=[
+        # for one atom: ceil(n / 4) records, n the number of its bonded atoms with a larger key; every record is for this atom; the p-th
+        # listed number (record p div 4, place p mod 4) is the serial number of the p-th such atom in the order sorted() gave - every
+        # bond of the molecule is therefore written exactly once, at its atom with the smaller key
+        "len(OUT) == len(old(OUT)) + (up_len + 3) // 4",
+        "forall(lambda j: implies(0 <= j and j < (up_len + 3) // 4, OUT[len(old(OUT)) + j].center == serial(mol_idx, node_idx) and "
+        "   OUT[len(old(OUT)) + j].nfields == len(OUT[len(old(OUT)) + j].partners) + 1))",
+        "forall(lambda p: implies(0 <= p and p < up_len, 0 <= up_ix(srt_ix(p)) and up_ix(srt_ix(p)) < len(NBRS) and NBRS[up_ix(srt_ix(p))] > node_idx and "
+        "   OUT[len(old(OUT)) + p // 4].partners[p % 4] == serial(mol_idx, NBRS[up_ix(srt_ix(p))])))",
+        "forall(lambda k: implies(0 <= k and k < len(old(OUT)), OUT[k] == old(OUT)[k]))",
+    ],
+    modifies=['OUT'],
+)
+CONTRACTS.append(conect_atom)
